@@ -446,3 +446,233 @@ Example C05_generated_instance :
   /\ model_reads_canonical S_ok JS_ok 0 (0 + NB) (abs_obj S_ok ok_outer) = Some (abs_obj S_ok ok_outer)
   /\ match S.json_spec JS_ok 0 (abs_obj S_ok ok_outer) with Some (S.JObj d) => List.length d = 7%nat | _ => False end.
 Proof. exact D_ok_json_instance. Qed.
+
+(* ======================================================================================================================
+   GAP CLOSING (Proofs/C05GapA.v - clause-by-clause table of the property text against the theorems above -, C05GapB.v).
+   Nothing above is changed.
+   ====================================================================================================================== *)
+From BP Require Import Model.History Model.C07Ops Model.C01Def Model.C01Reach Model.C01Parse.
+From BP Require Import Proofs.C05AccRead Proofs.C05AccObj Proofs.C05GapA.
+
+(* ---- clause (2) "is accepted by betterproto and yields the same message", said about the OBJECT from_dict returns ---- *)
+(* for every well-formed abstract message a: the reference's canonical text exists, Cls.from_dict does not raise on it, and the
+   object it returns denotes exactly a, is of the right class, and meets every value-side premise of C05_emit (so that what it
+   emits is accepted as a again).  C05_accept is the last conjunct composed with the first two. *)
+Theorem C05_accept_object : forall sc js off c a,
+  wf_schema sc = true -> js_matches off sc js = true -> C04Def.keys_ok J.CAMEL sc = true ->
+  wf_aval sc js off (S.JMsg c) a = true ->
+  exists j o, S.json_spec js c a = Some j /\ J.from_dict_cls sc (c + off) (unconv j) = Ok o /\
+              abs_obj sc o = a /\ emit_good sc o = true /\ ocls o = (c + off)%nat /\
+              model_emit_accepts sc js c o = Some a.
+Proof. exact accept_object. Qed.
+Print Assumptions C05_accept_object.
+
+(* the reference's printer (as specified) is total on the well-formed abstract messages ... *)
+Theorem C05_spec_total : forall sc js off c a,
+  wf_schema sc = true -> js_matches off sc js = true -> C04Def.keys_ok J.CAMEL sc = true ->
+  wf_aval sc js off (S.JMsg c) a = true -> exists j, S.json_spec js c a = Some j.
+Proof. exact spec_total. Qed.
+Print Assumptions C05_spec_total.
+
+(* ... and injective on them: "the same message" is determined by the text (two different messages never share a text) *)
+Theorem C05_spec_injective : forall sc js off c a a',
+  wf_schema sc = true -> js_matches off sc js = true -> C04Def.keys_ok J.CAMEL sc = true ->
+  wf_aval sc js off (S.JMsg c) a = true -> wf_aval sc js off (S.JMsg c) a' = true ->
+  S.json_spec js c a = S.json_spec js c a' -> a = a'.
+Proof. exact spec_injective. Qed.
+Print Assumptions C05_spec_injective.
+
+(* the chain reference -> betterproto -> reference -> betterproto: what from_dict built is emitted as a text the reference
+   accepts as a, and the message that object denotes is read back once more *)
+Theorem C05_accept_idempotent : forall sc js off c a,
+  wf_schema sc = true -> js_matches off sc js = true -> C04Def.keys_ok J.CAMEL sc = true ->
+  wf_aval sc js off (S.JMsg c) a = true ->
+  exists j o, S.json_spec js c a = Some j /\ J.from_dict_cls sc (c + off) (unconv j) = Ok o /\
+    model_emit_accepts sc js c o = Some a /\
+    model_reads_canonical sc js c (c + off) (abs_obj sc o) = Some (abs_obj sc o).
+Proof. exact accept_idempotent. Qed.
+Print Assumptions C05_accept_idempotent.
+
+(* ---- clause (1): the emitted text determines the message ---- *)
+Theorem C05_emit_text_determines : forall sc js off c o1 o2,
+  wf_schema sc = true -> js_matches off sc js = true -> emit_good sc o1 = true -> emit_good sc o2 = true ->
+  ocls o1 = (c + off)%nat -> ocls o2 = (c + off)%nat -> (c < length (S.jclasses js))%nat ->
+  J.to_dict J.CAMEL false sc o1 = J.to_dict J.CAMEL false sc o2 -> abs_obj sc o1 = abs_obj sc o2.
+Proof. exact emit_text_determines. Qed.
+Print Assumptions C05_emit_text_determines.
+
+(* ---- quantifier "values as in C01": in_range is no longer a sampled premise for what the public API builds ---- *)
+(* every object a history of public operations (setattr / getattr at any depth, parse of clean bytes, copy / deepcopy / pickle,
+   bytes / len / dump, ==, bool, Cls(kwargs), from_dict) produces from Cls() under C01's operation-level conditions is in range
+   (C01_reachable_value_ok_parse); the three remaining conjuncts of emit_good are exact (next four theorems) *)
+Theorem C05_emit_reachable : forall sc js off c cls ops o,
+  c01_schema_ok sc = true -> js_matches off sc js = true ->
+  hist_ok op_value_ok_p sc (new sc cls) ops = true -> run7 sc (new sc cls) ops = Ok o ->
+  oneof_sel sc o && nan_canon o && no_neg_zero sc o = true ->
+  ocls o = (c + off)%nat -> (c < length (S.jclasses js))%nat ->
+  model_emit_accepts sc js c o = Some (abs_obj sc o).
+Proof. exact emit_reachable. Qed.
+Print Assumptions C05_emit_reachable.
+
+Example C05_emit_reachable_nonvacuous :
+  c01_schema_ok nz_sc = true /\ js_matches gNB nz_sc nz_js = true /\
+  hist_ok op_value_ok_p nz_sc (new nz_sc gNB) rc_ops = true /\
+  match run7 nz_sc (new nz_sc gNB) rc_ops with
+  | Ok o => oneof_sel nz_sc o && nan_canon o && no_neg_zero nz_sc o = true /\ ocls o = (0 + gNB)%nat /\
+            model_emit_accepts nz_sc nz_js 0 o = Some (S.AMsg [S.FOne (S.AFloat 4609434218613702656)])
+  | Err _ => False
+  end.
+Proof. exact emit_reachable_nonvacuous. Qed.
+
+(* K13 is reachable within C01's conditions: Cls(); m.x = -0.0 *)
+Theorem C05_emit_neg_zero_reachable_refuted :
+  c01_schema_ok nz_sc = true /\ js_matches gNB nz_sc nz_js = true /\
+  hist_ok op_value_ok_p nz_sc (new nz_sc gNB) nz_ops = true /\ run7 nz_sc (new nz_sc gNB) nz_ops = Ok nz_obj /\
+  oneof_sel nz_sc nz_obj && nan_canon nz_obj = true /\ no_neg_zero nz_sc nz_obj = false /\
+  model_emit_accepts nz_sc nz_js 0 nz_obj <> Some (abs_obj nz_sc nz_obj).
+Proof. exact emit_neg_zero_reachable_refuted. Qed.
+Print Assumptions C05_emit_neg_zero_reachable_refuted.
+
+(* nan_canon: a NaN with a payload bit, assigned within C01's conditions: the text says "NaN", the reference reads the canonical
+   quiet NaN, which is not the binary64 value the message holds *)
+Theorem C05_emit_nan_payload_refuted :
+  f64_is_nan np_bits = true /\
+  hist_ok op_value_ok_p nz_sc (new nz_sc gNB) np_ops = true /\ run7 nz_sc (new nz_sc gNB) np_ops = Ok np_obj /\
+  in_range nz_sc np_obj && oneof_sel nz_sc np_obj && no_neg_zero nz_sc np_obj = true /\ nan_canon np_obj = false /\
+  model_emit_accepts nz_sc nz_js 0 np_obj = Some (S.AMsg [S.FOne (S.AFloat S.nan_bits)]) /\
+  abs_obj nz_sc np_obj = S.AMsg [S.FOne (S.AFloat np_bits)] /\
+  model_emit_accepts nz_sc nz_js 0 np_obj <> Some (abs_obj nz_sc np_obj).
+Proof. exact emit_nan_payload_refuted. Qed.
+Print Assumptions C05_emit_nan_payload_refuted.
+
+(* in_range: m.x = 2**31 on an int32 field (outside C01's conditions; setattr and to_dict do not range-check): the reference
+   REJECTS the text *)
+Theorem C05_emit_out_of_range_refuted :
+  c01_schema_ok ir_sc = true /\ js_matches gNB ir_sc ir_js = true /\
+  run7 ir_sc (new ir_sc gNB) ir_ops = Ok ir_obj /\ hist_ok op_value_ok_p ir_sc (new ir_sc gNB) ir_ops = false /\
+  oneof_sel ir_sc ir_obj && nan_canon ir_obj && no_neg_zero ir_sc ir_obj = true /\ in_range ir_sc ir_obj = false /\
+  J.to_dict J.CAMEL false ir_sc ir_obj = J.JObj [(J.JStr nz_name, J.JInt (2 ^ 31))] /\
+  model_emit_accepts ir_sc ir_js 0 ir_obj = None.
+Proof. exact emit_out_of_range_refuted. Qed.
+Print Assumptions C05_emit_out_of_range_refuted.
+
+(* oneof_sel (state-level witness): the group selects a member whose raw attribute is PLACEHOLDER *)
+Theorem C05_emit_oneof_sel_refuted :
+  wf_schema os_sc = true /\ js_matches gNB os_sc os_js = true /\
+  in_range os_sc os_obj && nan_canon os_obj && no_neg_zero os_sc os_obj = true /\ oneof_sel os_sc os_obj = false /\
+  J.to_dict J.CAMEL false os_sc os_obj = J.JObj [(J.JStr [x61], J.JInt 0)] /\
+  model_emit_accepts os_sc os_js 0 os_obj = Some (S.AMsg [S.FOne (S.AInt 0); S.FAbsent]) /\
+  abs_obj os_sc os_obj = S.AMsg [S.FAbsent; S.FAbsent].
+Proof. exact emit_oneof_sel_refuted. Qed.
+Print Assumptions C05_emit_oneof_sel_refuted.
+
+(* ---- quantifier "restricted to microsecond-resolution times" is needed: one nanosecond in an optional Timestamp ---- *)
+Theorem C05_accept_nanosecond_refuted :
+  wf_schema ns_sc = true /\ js_matches gNB ns_sc pz_js = true /\ C04Def.keys_ok J.CAMEL ns_sc = true /\
+  wf_aval ns_sc pz_js gNB (S.JMsg 0) us_aval = true /\ model_reads_canonical ns_sc pz_js 0 gNB us_aval = Some us_aval /\
+  wf_aval ns_sc pz_js gNB (S.JMsg 0) ns_aval = false /\
+  model_reads_canonical ns_sc pz_js 0 gNB ns_aval = Some (S.AMsg [S.FOne (S.ATime 1 0)]) /\
+  S.AMsg [S.FOne (S.ATime 1 0)] <> ns_aval.
+Proof. exact accept_nanosecond_refuted. Qed.
+Print Assumptions C05_accept_nanosecond_refuted.
+
+(* ---- the "In particular" clauses as explicit shapes of what to_dict writes, with their converses (Proofs/C05GapB.v) ---- *)
+From BP Require Proofs.EnumP Model.Enum.
+From BP Require Import Proofs.C05GapB.
+
+(* "64-bit integers are strings": for EVERY integer value (in range or not) of an integer-typed field, a JSON string holding the
+   decimal numeral ("-"? digit+) EXACTLY when the type is one of int64 / uint64 / sint64 / fixed64 / sfixed64 - which are exactly
+   the kinds the specification treats as 64-bit -, the bare JSON number for the five 32-bit types *)
+Theorem C05_emit_int_shape : forall sc t p z, is_int_ptype t = true ->
+  J.scalar_to_json sc t p (PInt z) = (if is_64bit t then J.JStr (J.str_of_Z z) else J.JInt z) /\
+  numeral (J.str_of_Z z) /\
+  (forall k, skind_of t = Some k -> S.is64 k = is_64bit t).
+Proof. exact emit_int_shape. Qed.
+Print Assumptions C05_emit_int_shape.
+
+(* "bytes are base64": standard alphabet with padding, and the specified decoder takes it back, for every byte string *)
+Theorem C05_emit_bytes_base64 : forall sc p b,
+  J.scalar_to_json sc TBytes p (PBytes b) = J.JStr (S.b64_encode b) /\ S.b64_decode (S.b64_encode b) = Some b.
+Proof. exact emit_bytes_base64. Qed.
+Print Assumptions C05_emit_bytes_base64.
+
+(* "NaN/Infinity are strings": a string EXACTLY for the non-finite binary64 values, and then the matching one of the three tokens;
+   every finite value (-0.0, subnormals included) is a JSON number *)
+Theorem C05_emit_float_shape : forall sc t p b, is_float_ptype t = true -> 0 <= b < 2 ^ 64 ->
+  (S.f64_finite b = true -> J.scalar_to_json sc t p (PFloat b) = J.JFloat b) /\
+  (S.f64_finite b = false ->
+     (b = f64_pos_inf /\ J.scalar_to_json sc t p (PFloat b) = J.JStr S.s_Infinity) \/
+     (b = f64_neg_inf /\ J.scalar_to_json sc t p (PFloat b) = J.JStr S.s_NegInfinity) \/
+     (f64_is_nan b = true /\ J.scalar_to_json sc t p (PFloat b) = J.JStr S.s_NaN)).
+Proof. exact emit_float_shape. Qed.
+Print Assumptions C05_emit_float_shape.
+
+(* "enums are value names": for EVERY number, the name of the first declared member carrying it (a member of the enum with that
+   number) when there is one, the bare number exactly when no member carries it; never null *)
+Theorem C05_emit_enum_shape : forall sc e z,
+  let ms := Enum.members_of (emembers (nth e (enums sc) (mkE []))) in
+  J.scalar_to_json sc TEnum (PyEnum e) (PInt z) =
+    match EnumP.first_name ms z with Some n => J.JStr n | None => J.JInt z end /\
+  (forall n, EnumP.first_name ms z = Some n -> In (n, z) ms) /\
+  (EnumP.first_name ms z = None -> ~ In z (map snd ms)).
+Proof. exact emit_enum_shape. Qed.
+Print Assumptions C05_emit_enum_shape.
+
+(* "Timestamp is RFC 3339 UTC": for EVERY instant, the calendar part, then nothing / "." + 3 digits / "." + 6 digits, then the
+   literal "Z" (never a numeric offset, never 9 digits) *)
+Theorem C05_timestamp_shape : forall us,
+  exists fr, J.ts_text us = J.cal_text (us / 1000000) ++ fr ++ [cZ] /\
+    (fr = [] \/ exists ds, fr = cDOT :: ds /\ Forall (fun b => is_digit b = true) ds /\ (length ds = 3 \/ length ds = 6)%nat).
+Proof. exact timestamp_shape. Qed.
+Print Assumptions C05_timestamp_shape.
+
+(* "Duration is decimal seconds with an 's' suffix": for EVERY span, "-"? digit+ "." (3 or 6 digits) "s" *)
+Theorem C05_duration_shape : forall us,
+  exists ip fp, Model.Time.delta_to_json us = (if us <? 0 then [cMINUS] else []) ++ ip ++ [cDOT] ++ fp ++ [cS] /\
+    ip <> [] /\ Forall (fun b => is_digit b = true) ip /\ Forall (fun b => is_digit b = true) fp /\
+    (length fp = 3 \/ length fp = 6)%nat.
+Proof. exact duration_shape. Qed.
+Print Assumptions C05_duration_shape.
+
+Example C05_shapes_nonvacuous :
+  J.scalar_to_json Ex.ex_sc TUInt64 Object.PyInt (PInt (2 ^ 64 - 1)) =
+    J.JStr [x31; x38; x34; x34; x36; x37; x34; x34; x30; x37; x33; x37; x30; x39; x35; x35; x31; x36; x31; x35] /\
+  J.scalar_to_json Ex.ex_sc TUInt32 Object.PyInt (PInt (2 ^ 32 - 1)) = J.JInt 4294967295 /\
+  J.scalar_to_json Ex.ex_sc TBytes Object.PyBytes (PBytes [xfb; xff]) = J.JStr [x2b; x2f; x38; x3d] /\
+  S.f64_finite f64_neg_inf = false /\ S.f64_finite 4609434218613702656 = true /\
+  J.scalar_to_json Ex.ex_sc TEnum (Object.PyEnum 0) (PInt (-1)) = J.JStr [x4e; x45; x47] /\
+  J.scalar_to_json Ex.ex_sc TEnum (Object.PyEnum 0) (PInt 7) = J.JInt 7 /\
+  Model.Time.delta_to_json (-1500000) = [x2d; x31; x2e; x35; x30; x30; x73].
+Proof. exact shapes_nonvacuous. Qed.
+
+(* ---- "keys are lowerCamelCase JSON names", about the keys of the emitted OBJECT (Proofs/C05GapC.v) ---- *)
+From BP Require Import Proofs.C05GapC.
+
+(* for ANY object (no value-side premise, either setting of include_default_values): every key of to_dict(CAMEL) is a string and is
+   one of the camelCase keys of the fields of the object's class ... *)
+Theorem C05_to_dict_keys_of_class : forall incl sc o,
+  match J.to_dict J.CAMEL incl sc o with
+  | J.JObj d => Forall (key_in (map (J.key_of_field J.CAMEL) (cfields (get_class sc (ocls o))))) d
+  | _ => False
+  end.
+Proof. exact to_dict_keys_of_class. Qed.
+Print Assumptions C05_to_dict_keys_of_class.
+
+(* ... hence, for a matched schema, the json_name of a field of the reference-side class: protoc's lowerCamelCase of a proto field
+   name (one that is json_name_safe - K3 is inside js_matches).  Nested objects: the same statement about them. *)
+Theorem C05_emit_keys_are_json_names : forall incl sc js off c o,
+  js_matches off sc js = true -> ocls o = (c + off)%nat -> (c < length (S.jclasses js))%nat ->
+  match J.to_dict J.CAMEL incl sc o with
+  | J.JObj d => Forall (fun kx => exists k jf, fst kx = J.JStr k /\ In jf (S.jclass js c) /\ k = S.jf_json jf /\
+                                    k = S.protoc_json_name (S.jf_name jf) /\ json_name_safe (S.jf_name jf) = true) d
+  | _ => False
+  end.
+Proof. exact emit_keys_are_json_names. Qed.
+Print Assumptions C05_emit_keys_are_json_names.
+
+(* non-vacuity: the hand-written schema with every field shape; its object emits 16 keys *)
+Example C05_emit_keys_nonvacuous :
+  js_matches (length builtin_classes) Ex2.sc Ex2.js = true /\ ocls Ex2.m = (0 + length builtin_classes)%nat /\
+  Nat.ltb 0 (length (S.jclasses Ex2.js)) = true /\
+  match J.to_dict J.CAMEL false Ex2.sc Ex2.m with J.JObj d => length d = 16%nat | _ => False end.
+Proof. repeat split; vm_compute; try reflexivity. Qed.
